@@ -1,24 +1,29 @@
 ---- MODULE WeightedClusterTrace ----
 (* Trace validation of real ClusterName() calls against WeightedCluster (C06 part 1).
    Events (hooks router.wc.draw / router.wc.visit + driver):
-     cfg{w}            new route rule with weight map w (acts as TraceReset)
+     cfg{w,build,list,after}   new route rule with weight map w (acts as TraceReset); build = how many rules have now been
+                       built from this configuration object, list / after = the object's cluster list (storage order) as
+                       read before / after this build (WeightedClusterBuild: building leaves the configuration as it was)
      draw{d,total}     the draw the code obtained and the range it drew from
      visit{c,cw}       one iteration of the scan, in the map order the code happened to see
      ret{c}            the cluster ClusterName() returned *)
 EXTENDS WeightedCluster, VTrace
 
-tvars == <<vars, l>>
+VARIABLE clist     \* the configuration object's cluster list as written (read before the first build)
+tvars == <<vars, clist, l>>
 
-TraceInit == /\ l = 1 /\ w = [x \in {} |-> 0] /\ order = <<>> /\ draw = 0 /\ pos = 1 /\ rem = 0 /\ result = None
+TraceInit == /\ l = 1 /\ w = [x \in {} |-> 0] /\ order = <<>> /\ draw = 0 /\ pos = 1 /\ rem = 0 /\ result = None /\ clist = <<>>
 
 TCfg == /\ IsEvent("cfg")
+        /\ clist' = IF ~Has(Ev, "build") THEN <<>> ELSE IF Ev.build = 1 THEN Ev.list ELSE clist
+        /\ Expect(~Has(Ev, "build") \/ Ev.after = clist', "configuration-changed-by-building-a-rule")
         /\ w' = Ev.w /\ order' = <<>> /\ draw' = 0 /\ pos' = 1 /\ rem' = 0 /\ result' = None
 
 TDraw == /\ IsEvent("draw")
          /\ Expect(Ev.total = Total(w), "total")
          /\ Expect(Ev.d >= 0 /\ Ev.d < Total(w), "draw-range")
          /\ draw' = Ev.d /\ rem' = Ev.d /\ order' = <<>> /\ pos' = 1 /\ result' = None
-         /\ UNCHANGED w
+         /\ UNCHANGED <<w, clist>>
 
 (* the visit order is whatever the map iteration produced: it extends `order`; the scan step is the spec's *)
 TVisit == /\ IsEvent("visit")
@@ -31,12 +36,12 @@ TVisit == /\ IsEvent("visit")
                /\ result' = IF result = None /\ Hit(r) THEN Ev.c ELSE result
           /\ Expect(result = None, "visit-after-selection")
           /\ pos' = pos + 1
-          /\ UNCHANGED <<w, draw>>
+          /\ UNCHANGED <<w, draw, clist>>
 
 TRet == /\ IsEvent("ret")
         /\ Expect(Ev.c = result, "ret")
         /\ Expect(Ev.c \in DOMAIN w /\ w[Ev.c] > 0, "zero-weight-selected")
-        /\ UNCHANGED vars
+        /\ UNCHANGED <<vars, clist>>
 
 TraceNext == TCfg \/ TDraw \/ TVisit \/ TRet
 TraceSpec == TraceInit /\ [][TraceNext]_tvars
